@@ -77,6 +77,13 @@ func (r *Result) Update(potIdx int, playerIdx int, wager int64, withdraw int64) 
 }
 
 func (r *Result) CalculateWinnerRewards(potIdx int, l *LevelInfo) {
+	r.calculateWinnerRewards(potIdx, l, 0, true)
+}
+
+// calculateWinnerRewards splits a level among its winners. Chips that can not be split evenly
+// are carried over to the next level of the same pot, so that the odd chips are handed out once
+// per pot (on its last level) and the shares of tied winners differ by one chip at most.
+func (r *Result) calculateWinnerRewards(potIdx int, l *LevelInfo, carry int64, last bool) int64 {
 
 	// Calculate contributer ranks of this pot by score
 	l.rank.Calculate()
@@ -85,19 +92,26 @@ func (r *Result) CalculateWinnerRewards(potIdx int, l *LevelInfo) {
 	winners := l.rank.GetWinners()
 
 	// Calculate rewards
-	based := l.Total / int64(len(winners))
-	remainder := l.Total % int64(len(winners))
+	total := l.Total + carry
+	based := total / int64(len(winners))
+	remainder := total % int64(len(winners))
 
 	for i, wIdx := range winners {
 
 		reward := based
 
-		if int64(i) < remainder {
+		if last && int64(i) < remainder {
 			reward += 1
 		}
 
 		r.Update(potIdx, wIdx, l.Wager, reward-l.Wager)
 	}
+
+	if last {
+		return 0
+	}
+
+	return remainder
 }
 
 func (r *Result) CalculateLoserResults(potIdx int, l *LevelInfo) {
@@ -112,10 +126,12 @@ func (r *Result) CalculateLoserResults(potIdx int, l *LevelInfo) {
 
 func (r *Result) CalculatePot(potIdx int, p *PotResult) {
 
-	for _, l := range p.level.levels {
+	carry := int64(0)
+
+	for i, l := range p.level.levels {
 
 		// Calculate chips for multiple winners of this pot
-		r.CalculateWinnerRewards(potIdx, l)
+		carry = r.calculateWinnerRewards(potIdx, l, carry, i == len(p.level.levels)-1)
 
 		// Update loser results
 		r.CalculateLoserResults(potIdx, l)
